@@ -629,6 +629,12 @@ def _analyze_string_cmdsubs(
 ) -> list[Decision]:
     """Extract and analyze command substitutions from a raw string."""
     decisions = []
+    if "$(" not in s and "`" not in s and "<(" not in s and ">(" not in s:
+        return decisions
+    if not _is_plain_raw(s):
+        # Quotes, escapes, comments or bare parentheses make the end of a
+        # substitution ambiguous for this scanner - don't guess
+        return [Decision("ask", "complex substitution")]
     i = 0
     while i < len(s):
         # Look for $( pattern
@@ -687,6 +693,32 @@ def _analyze_string_cmdsubs(
         else:
             i += 1
     return decisions
+
+
+def _is_plain_raw(s: str) -> bool:
+    """True if substitutions in s can be delimited by counting $( and ) alone."""
+    if any(c in s for c in "\\'\"#"):
+        return False
+    depth = 0
+    backticks = 0
+    i = 0
+    while i < len(s):
+        if s[i : i + 2] == "$(":
+            depth += 1
+            i += 2
+            continue
+        if s[i] == "(":
+            return False
+        if s[i] == ")":
+            depth -= 1
+            if depth < 0:
+                return False
+        if s[i] == "`":
+            if depth > 0:
+                return False
+            backticks += 1
+        i += 1
+    return depth == 0 and backticks % 2 == 0
 
 
 def _extract_cd_target(node) -> str | None:
